@@ -15,8 +15,10 @@ Import ListNotations.
            (true = this delivery fails; exhausted = success)               *)
 Record sub := mkSub { uid : nat; pat : option nat; sel : list nat; sched : list bool }.
 
-Definition event := list Z.
-Definition msg := list (nat * Z).
+(* an event: the value of each of its fields, None for a field whose resolution fails (the message
+   then holds null there and the publish reports an error; the subscriber stays) *)
+Definition event := list (option Z).
+Definition msg := list (nat * option Z).
 
 Inductive outev :=
 | Deliver (u : nat) (m : msg) (ok : bool)
@@ -27,7 +29,12 @@ Definition matches (id : nat) (s : sub) : bool :=
 
 (* the subscriber's selection set applied to the event: root.resolve(event, …, s.field, …) *)
 Definition render (sl : list nat) (ev : event) : msg :=
-  map (fun i => (i, nth i ev 0%Z)) sl.
+  map (fun i => (i, nth i ev None)) sl.
+
+(* a delivered message that holds a failed field *)
+Definition msg_bad (m : msg) : bool :=
+  existsb (fun kv => match snd kv with None => true | Some _ => false end) m.
+Definition dl_bad (dl : list (nat * msg * bool)) : bool := existsb (fun d => msg_bad (snd (fst d))) dl.
 
 (* s.sub.Send(result): returns (failed?, subscriber afterwards) *)
 Definition send (s : sub) : bool * sub :=
@@ -114,7 +121,7 @@ Definition add_event (id : nat) (ev : event) (l : state) : option (state * pub_o
   let '(l1, c, dl, f) := phase1 id ev l in
   match phase2 f l1 [] with
   | None => None
-  | Some (l2, cl) => Some (l2, mkPub c (negb (Nat.eqb (length f) 0)) dl cl)
+  | Some (l2, cl) => Some (l2, mkPub c (negb (Nat.eqb (length f) 0) || dl_bad dl) dl cl)
   end.
 
 Inductive op :=
@@ -174,7 +181,7 @@ Definition a_publish (id : nat) (ev : event) (l : state) : state * pub_out :=
   let dl := flat_map (fun r => opt_list (fst r)) rs in
   let removed := flat_map (fun s => if matches id s then if fst (send s) then [uid s] else [] else []) l in
   (flat_map (fun r => opt_list (snd r)) rs,
-   mkPub (length (filter (matches id) l)) (negb (Nat.eqb (length removed) 0)) dl removed).
+   mkPub (length (filter (matches id) l)) (negb (Nat.eqb (length removed) 0) || dl_bad dl) dl removed).
 
 Definition a_unsubscribe (id : nat) (l : state) : state * nat * list nat :=
   (filter (fun s => negb (matches id s)) l,
